@@ -206,11 +206,21 @@ def conclude(prop, tier, seed, specs, results, metas, crashes, nat, group_wall, 
     # replay of violations on the real code
     lines = []
     confirmed = []
+    replays_per_group = {}
+    group_rep = {}
     for r in violations:
         spec = oblig.GROUPS.get((prop, r.get("group")))
         rep = None
         if spec is not None and spec.kind == "P" and spec.env == "shim" and r.get("witness") and r["backend"] != "native-eval":
-            rep = native_replay(prop, spec.name, r["witness"])
+            g = spec.name
+            if replays_per_group.get(g, 0) < 2 and sum(replays_per_group.values()) < 8:
+                rep = native_replay(prop, spec.name, r["witness"])
+                replays_per_group[g] = replays_per_group.get(g, 0) + 1
+                if rep and rep.get("applicable") and rep.get("failures"):
+                    group_rep[g] = rep
+            elif g in group_rep:
+                # replay budget used: the group's contract already failed natively on a witness of this run
+                rep = dict(group_rep[g], note="native replay of this witness skipped (budget); another witness of the same contract group replayed")
         if r["backend"] == "native-eval":
             rep = {"applicable": True, "failures": [[r["name"], r["detail"]]]}
         native_fail = bool(rep and rep.get("applicable") and rep.get("failures"))
